@@ -155,23 +155,26 @@ func c08Case(c *core.Ctx, i int) (string, string) {
 		b.WriteString("rep := [b] * 2\nprint rep\nfor k := range rep[1]\n    print k\nend\nanys:[]any\nanys = [b [b]]\nrep2 := anys * 2\nprint rep2 (repr rep2)\n")
 		return b.String(), "map-orders"
 	case 6: // random numbers with a seed
-		b.WriteString("for i := range 12\n    print (rand 10) (rand1) (rand 1000000)\nend\n")
+		b.WriteString("for range 12\n    print (rand 10) (rand1) (rand 1000000)\nend\n")
 		// bounds at and beyond the documented range: a value or a panic, but the same on every run
 		b.WriteString("print (rand 2147483647)\n")
 		b.WriteString("print (rand " + []string{"2147483648", "3000000000", "9007199254740992", "4294967296"}[r.Intn(4)] + ")\n")
 		return b.String(), "rand-seeded"
 	case 9: // formatted output of composites under every verb: text must not depend on the run (no addresses)
-		b.WriteString("arr := [1 2 3]\nm := {a:1 b:2}\nx:any\nx = [[1] [2]]\nn := [\"s\"]\n")
+		b.WriteString("arr := [1 2 3]\nm := {a:1 b:2}\nx:any\nx = [[1] [2]]\nn := [\"s\"]\nif (len arr) == 0\n    print arr m x n\nend\n")
 		verbs := []string{"%v", "%s", "%q", "%d", "%o", "%b", "%g", "%x", "%X", "%e", "%f", "%t", "%c", "%U", "%5v", "%-8s|", "%+d", "%08.3f"}
 		r.Shuffle(len(verbs), func(a, b int) { verbs[a], verbs[b] = verbs[b], verbs[a] })
+		// a verb that does not fit its argument may be a documented panic: every line is its own
+		// program end, so each program holds one verb pair; several arguments per pair
 		v := verbs[0]
-		arg := []string{"arr", "m", "x", "n", "[arr]", "{k:m}"}[r.Intn(6)]
+		args := []string{"arr", "m", "x", "n", "[arr]", "{k:m}"}
+		r.Shuffle(len(args), func(a, b int) { args[a], args[b] = args[b], args[a] })
 		if r.Intn(2) == 0 {
-			b.WriteString("printf \"" + v + "\\n\" " + arg + "\n")
+			b.WriteString("printf \"" + v + "|" + v + "|" + v + "\\n\" " + args[0] + " " + args[1] + " " + args[2] + "\n")
 		} else {
-			b.WriteString("print (sprintf \"" + v + " " + verbs[1] + "\" " + arg + " arr)\n")
+			b.WriteString("print (sprintf \"" + v + " " + verbs[1] + "\" " + args[0] + " arr)\n")
 		}
-		b.WriteString("test 1 2 \"" + v + "\" " + arg + "\n")
+		b.WriteString("test 1 2 \"" + v + "\" " + args[3] + "\n")
 		return b.String(), "format-composites"
 	case 7: // several handlers and test summary
 		b.WriteString("n := 0\non key k:string\n    n = n + 1\n    print \"key\" k n\nend\non down x:num y:num\n    print \"down\" x y\nend\non animate t:num\n    print \"anim\" t\nend\non input id:string val:string\n    print id val\nend\ntest 1 n\ntest 0 n\ntest true\n")
@@ -208,12 +211,18 @@ func c08Run(c *core.Ctx, i int) {
 		}
 	}
 	if strings.HasPrefix(first, "PARSE-ERROR") {
+		switch kind {
+		case "unused-variables", "several-errors", "corpus-mutant":
+		default:
+			c.Violation("harness-program-rejected", "a "+kind+" program meant to run is rejected: "+firstN(first, 200), src, nil)
+		}
 		c.Cover("observable", "parse-errors")
 	} else {
 		c.Cover("observable", "format+run")
 	}
 	// fresh processes through the real binary
-	if c.EvyBin != "" && i%8 == 3 {
+	// (a program that only ends by the harness's yield budget would not end in a real process)
+	if c.EvyBin != "" && (i%8 == 3 || kind == "format-composites" || kind == "rand-seeded") && !strings.Contains(first, "\nRUN stopped") {
 		path := filepath.Join(c.Tmp, "c08.evy")
 		_ = os.WriteFile(path, []byte(src), 0o644)
 		var ref string
